@@ -2,26 +2,16 @@
 # usage: tools/run_all_seeds.sh [name ...]
 # Re-runs the property check of every seeded change (tools/run_seed.sh, scratch worktree of HEAD) and records the
 # failing obligations in seeded/<name>/result.json ("detected_by_checks", "obligations"); then rewrites the table
-# in seeded/README.md.
+# in seeded/README.md. Several instances may run in parallel on disjoint name lists.
 cd /verif
 names=("$@")
 if [ ${#names[@]} -eq 0 ]; then names=($(ls seeded | grep -v '^_' | grep -v README)); fi
+log=$(mktemp /tmp/seedlog.XXXXXX)
 for n in "${names[@]}"; do
   [ -f seeded/$n/patch.diff ] || continue
-  out=$(tools/run_seed.sh seeded/$n 2>&1)
-  echo "=== $n"; echo "$out" | cut -c1-300
-  python3 - "$n" <<PY
-import json,re,sys,os
-n=sys.argv[1]
-out='''$out'''
-p='/verif/seeded/%s/result.json'%n
-r=json.load(open(p)) if os.path.exists(p) else {}
-obls=re.findall(r'obligation=(\S+) reason="([^"]*)"( no-failing-input-found)?',out)
-props=sorted(set(re.findall(r'^VIOLATION property=(\S+)',out,re.M)))
-r['detected_by_checks']=props
-r['obligations']=[{'obligation':o,'reason':why,'failing_input_replayed':not nf} for o,why,nf in obls]
-r['patch_applies_to_repo_head']='patch does not apply' not in out
-json.dump(r,open(p,'w'),indent=1)
-PY
+  echo "=== $n" | tee -a "$log"
+  tools/run_seed.sh seeded/$n 2>&1 | cut -c1-600 | tee -a "$log"
 done
+python3 tools/parse_seed_logs.py "$log"
 python3 tools/seed_table.py
+rm -f "$log"
